@@ -568,6 +568,23 @@ func (w *Writer) ForceSeal() (uint64, error) {
 		return w.writer.indexStart, nil
 	}
 
+	// Save the state we need to roll back if the seal can't be written, just like
+	// Append does. Otherwise indexStart would stay set and a retry (or the next
+	// truncation) would take the "already sealed" path above although the index
+	// and commit frames never made it to disk.
+	sealed := false
+	beforeBuf := w.writer.commitBuf
+	beforeCRC := w.writer.crc
+	beforeWriteOffset := w.writer.writeOffset
+	defer func() {
+		if !sealed {
+			w.writer.commitBuf = beforeBuf
+			w.writer.crc = beforeCRC
+			w.writer.writeOffset = beforeWriteOffset
+			w.writer.indexStart = 0
+		}
+	}()
+
 	// Seal the segment! We seal it by writing an index frame before we commit.
 	if err := w.appendIndex(); err != nil {
 		return 0, err
@@ -578,6 +595,7 @@ func (w *Writer) ForceSeal() (uint64, error) {
 		return 0, err
 	}
 
+	sealed = true
 	return w.writer.indexStart, nil
 }
 
